@@ -118,6 +118,7 @@ UNIT = {
      'rewrites': SIG + [
         # "{} " of a Name (pinned text): Display for Name
         {'rule': 'R7', 'regex': W + r'"\{\} "\s*,\s*(\w+)\)\?', 'replace': r'hoist_write_name_display_sp(out, \1)?', 'count': '*'},
+        {'rule': 'R7', 'regex': W + r'"\{\}"\s*,\s*(\w+)\)\?', 'replace': r'hoist_write_name_display(out, \1)?', 'count': '*'},
      ] + HOISTS + ARMS + [
         # R6: IndexMap iteration -> index loop over the entries in iteration order
         {'rule': 'R6', 'find': 'for (key, val) in self.iter() {',
